@@ -122,10 +122,14 @@ def _(c):
     c.params(f=STREAM)
     c.let(d0="f.data", p0="f.pos")
     c.returns(INT)
-    c.ensures("result >= 0", "f.data == d0", "p0 < f.pos <= len(d0)", "G.vlq(result) == d0[p0:f.pos]")
+    c.ensures("result >= 0", "f.data == d0", "p0 < f.pos <= len(d0)", "G.vlq(result) == d0[p0:f.pos]",
+              # where the bytes at the cursor literally are an encoder output vlq(i), it returns i and consumes exactly that
+              "G.vlq_readback(d0, p0, result, f.pos)")
     c.always("f.data == d0")
+    c.raises_only_if("not G.vlq_at(d0, p0)")        # ... and does not refuse it
     c.modifies("f")
-    c.trust("accepts exactly the encoder's image (canonical, fixed by 0a4f2e3): checked by the bounded part of C07, not proved")
+    c.trust("accepts exactly the encoder's image (canonical, fixed by 0a4f2e3) and reads back what the encoder wrote: checked by "
+            "the bounded part of C07 (ranges, boundaries, all short strings), not proved")
 
 
 # ---- lists (generic in the element class: verified where they are inlined, once per element class) ------------------------
